@@ -158,8 +158,12 @@ def build_intersection(s):
 
 def build_network(s):
     """s: {"lanelets": [...], "signs": [...], "lights": [...], "intersections": [...]}"""
+    info = s.get("info")
     if s.get("lanelets"):
-        net = LaneletNetwork(MapInformation())
+        net = LaneletNetwork(MapInformation() if not info else MapInformation(
+            map_id=info.get("map_id", "map_id"), author=info.get("author", "author"),
+            affiliation=info.get("affiliation", "affiliation"), source=info.get("source", "source"),
+            licence_name=info.get("licence_name", "licence_name")))
     else:
         net = LaneletNetwork.create_from_lanelet_list([])  # a map without lanelets (as the readers build it)
     for la in s.get("lanelets", []):
